@@ -322,6 +322,8 @@ def run(run):
     for i in range(run.budget(6000, 120000)):
         case, line, sec, got = special_structured(run, run.rng, i)
         add(case, line, sec, got, True)
+    for i in range(run.budget(3000, 60000)):
+        doc_case(run, run.rng, i)
     # (a) exhaustive small scopes (context: most of these strings are junk, the property does not speak about them)
     n = 0
     for line, sec in exhaustive(run):
@@ -350,6 +352,58 @@ def run(run):
     flush()
 
 
+# ------------------------------------------------------------------ end to end: the line inside a document, through lasio.read
+DOC_SECTIONS = [("Version", "~Version"), ("Well", "~Well"), ("Curves", "~Curve"), ("Parameter", "~Parameter"), ("Tops", "~Tops")]
+TEXT_VALUES = ["12,25 then 8,5 hole", "LSD 12,4 SEC 7", "1,234,567", "a1,2b", "3,14 rad", "KB 12,5 ft", "|azimuth| < 5", "a | b", "x|y|z", "1,5-2,5"]
+
+
+def doc_case(run, rng, i):
+    """`MNEM .UNIT  VALUE : DESCR` in every section kind and version, read by lasio.read: the item carries exactly the four fields
+    (value through the literal recogniser of C08's oracle; LAS 1.2 ~Well lines are `MNEM.UNIT DESCR : VALUE`)"""
+    import lasio
+    from . import c08
+    secname, title = DOC_SECTIONS[i % len(DOC_SECTIONS)]
+    version = ("1.2", "2.0", "3.0")[(i // len(DOC_SECTIONS)) % 3]
+    gsec = secname if secname != "Tops" else "other"
+    f, p = gen_case(rng, gsec)
+    if rng.random() < 0.25:
+        f[rng.choice([2, 3])] = rng.choice(TEXT_VALUES)
+        if gsec == "Curves":
+            f[2] = f[2].replace("..", ".")
+    if gsec != "Parameter" and ":" in f[3]:
+        f[3] = f[3].replace(":", ";")
+    if ":" in f[2] and gsec != "Parameter":
+        f[2] = f[2].replace(":", ";")
+    u = f[1]
+    if len(u) >= 2 and ((u[0] == "[" and u[-1] == "]") or (u[0] == "(" and u[-1] == ")")):
+        f[1] = "Q" + u          # a bracketed unit is un-bracketed by the reader (documented): not what this stream is about
+    if f[0].upper() in ("VERS", "WRAP", "DLM", "NULL") or f[0][:1] in "#~" or f[0] != f[0].strip() or not f[0]:
+        f[0] = "Q" + f[0].strip()
+    p = fix_pads(f, p, gsec, rng)
+    if not pad_ok(f, p, gsec):
+        return
+    line = layout(f, p)
+    text = "~Version\nVERS. %s : v\nWRAP. NO : w\n" % version + ("" if secname == "Version" else title + "\n") + line + "\n~A\n"
+    case = {"doc": text, "sec": secname, "version": version, "fields": f, "pads": p}
+    run.case(case, nontrivial=True, tags=["document", "docsec=" + secname, "docversion=" + version])
+    try:
+        las = lasio.read(text, mnemonic_case="preserve")
+        it = list.__getitem__(las.sections[secname], -1)
+    except Exception as e:
+        run.fail("document-read", case, {"exc": repr(e)})
+        return
+    swap = version == "1.2" and secname == "Well" and f[0].upper() not in ("STRT", "STOP", "STEP", "NULL")
+    vtxt, dtxt = (f[3], f[2]) if swap else (f[2], f[3])
+    got = [it.original_mnemonic, it.unit, c08.show(c08.canon(it.value)), it.descr]
+    if secname == "Curves" or (f[0].upper() in ("API", "UWI") and secname != "Parameter"):
+        exp_v = ("str", vtxt)
+    else:
+        exp_v = c08.oracle(vtxt)[0]
+    bad = c08.judge(exp_v, c08.canon(it.value), vtxt)
+    if [got[0], got[1], got[3]] != [f[0], f[1], dtxt] or bad is not None:
+        run.fail("document-item", case, {"expected": [f[0], f[1], list(exp_v[:1]) + [repr(exp_v[1])], dtxt], "observed": got})
+
+
 def search(run, disagreements):
     for d in disagreements[:200]:
         c = d["case"]
@@ -368,9 +422,26 @@ def search(run, disagreements):
             return
 
 
+def doc_replay(run, c):
+    """re-run one document case from its recorded fields (the generator's adjustments are idempotent on them)"""
+    import random
+
+    class Fixed(random.Random):
+        pass
+    import lasio
+    from . import c08
+    secname, version, f = c["sec"], c["version"], c["fields"]
+    las = lasio.read(c["doc"], mnemonic_case="preserve")
+    it = list.__getitem__(las.sections[secname], -1)
+    swap = version == "1.2" and secname == "Well" and f[0].upper() not in ("STRT", "STOP", "STEP", "NULL")
+    vtxt, dtxt = (f[3], f[2]) if swap else (f[2], f[3])
+    exp_v = ("str", vtxt) if (secname == "Curves" or (f[0].upper() in ("API", "UWI") and secname != "Parameter")) else c08.oracle(vtxt)[0]
+    return [it.original_mnemonic, it.unit, it.descr] == [f[0], f[1], dtxt] and c08.judge(exp_v, c08.canon(it.value), vtxt) is None
+
+
 def shrink(run, f):
     c = f["case"]
-    if "fields" not in c:
+    if "fields" not in c or "doc" in c:
         return f
     fields, pads, sec = list(c["fields"]), list(c["pads"]), c["sec"]
 
@@ -404,6 +475,11 @@ def shrink(run, f):
 
 def replay(run, payload):
     c = payload["case"]
+    if "doc" in c:
+        try:
+            return doc_replay(run, c)
+        except Exception:
+            return False
     if "fields" in c:
         return real(layout(c["fields"], c["pads"]), c["sec"]) == c["fields"]
     if "special" in c:
